@@ -36,7 +36,7 @@ Stmts  == {"lit", "addrLit", "elidedVal", "elidedPtr", "elidedMap", "new", "varZ
            "litRec", "newRec", "varRec"}   \* on d.Rec, an exported alias of the unexported type rec with `@constructor newRec` (iff T is annotated)   \* the same on T2, a second type of d with `@constructor NewT2` (iff T is annotated)
 Nests  == {"none", "if", "else", "for", "range", "switch", "select", "funclit", "defer", "go", "label",
            "funcassign", "funcvar", "funcarg", "funcfield", "block", "ifinit", "typeswitch"}
-Spells == {"direct", "alias", "alias3", "rename", "paren"}
+Spells == {"direct", "alias", "alias3", "chain", "rename", "paren"}
 
 \* csp = which accepted spelling of the constructor list is used (1..5), semantically irrelevant
 Anns == [ctors : {<<>>, <<"NewT">>, <<"NewT", "MakeT">>}, csp : 1..5, imm : BOOLEAN]
@@ -129,7 +129,7 @@ EnterDecl ==
   /\ ph' = "visit"
   /\ UNCHANGED <<prog, fi, ci, diags>>
 
-Seen(c) == ~("NoUnalias" \in Deviations /\ c.sp \in {"alias", "alias3", "fnalias"})
+Seen(c) == ~("NoUnalias" \in Deviations /\ c.sp \in {"alias", "alias3", "chain", "fnalias"})
 VisitVerdict(c) ==
   LET code == CtorCode(c.stmt)
       ownPkg == prog.pkg = "d" \/ "CtorAnyPkg" \in Deviations
